@@ -24,6 +24,7 @@ type c18Case struct {
 	StatusFail int  // k-th status poll fails (0 = none)
 	PriorFails int  // consecutive failed provisionings before this one (exit after the third)
 	HalfNever  bool // every other instance never becomes ready (the others are running from ReadyPoll on)
+	Short      int  // the CreateFleet answer is partly fulfilled: this many instances fewer, plus an error entry
 	Split      int  // the CreateFleet answer lists the instances in this many entries of the same instance type (0 = 1)
 }
 
@@ -38,6 +39,7 @@ func c18Run(p c18Case) (entries []sim.Entry, err error, exit bool, pan any, setu
 	if p.Split > 0 {
 		env.W.FleetSplit = p.Split
 	}
+	env.W.FleetShort = p.Short
 	// earlier failed provisionings (never ready) to exercise the consecutive-failure counter
 	for i := 0; i < p.PriorFails; i++ {
 		env.W.ReadyFromPoll = -1
@@ -79,7 +81,11 @@ func c18Check(c *h.Collector, p c18Case) {
 	for _, s := range sigs {
 		report(s[0], s[1])
 	}
-	if int64(len(acquired)) != p.Size {
+	wantAcquired := p.Size
+	if p.Short > 0 && int64(p.Short) < p.Size {
+		wantAcquired -= int64(p.Short) // the simulated answer was partly fulfilled
+	}
+	if int64(len(acquired)) != wantAcquired {
 		report("C18/acquired-count", fmt.Sprintf("fleet returned %d instances", len(acquired)))
 	}
 	halfNeverHits := false
@@ -139,6 +145,17 @@ func c18Grid(t *testing.T, tier string, shard, shards int, c *h.Collector) {
 			}
 			for sf := 1; sf <= 3; sf++ {
 				run(c18Case{Size: n, ReadyPoll: 1, StatusFail: sf})
+			}
+			// a partly fulfilled answer (fewer instances than asked for, plus an error entry)
+			if n > 1 {
+				for _, short := range []int{1, int(n) / 2} {
+					if short < 1 {
+						continue
+					}
+					run(c18Case{Size: n, ReadyPoll: 1, Short: short})
+					run(c18Case{Size: n, ReadyPoll: -1, Short: short})
+					run(c18Case{Size: n, ReadyPoll: 1, Short: short, AttachFail: 1})
+				}
 			}
 			// the answer split over several entries (capacity from several subnets / pools)
 			for _, split := range []int{2, 3} {
